@@ -120,7 +120,11 @@ Theorem C19_uid_still_distinct :
 Proof. exact uid_still_distinct. Qed.
 Print Assumptions C19_uid_still_distinct.
 
-(* ... and through the value pipeline proved for C13: the numbers themselves are distinct. *)
+(* ... and through the value pipeline proved for C13: the numbers themselves are distinct.
+   Numeric generators only (unique_id, UniqueId.unique_id).  NOT covered, and false in the code as
+   it is: alpha codes — in small-id mode the default alpha template is `index` alone, the context
+   drawn from the counter is not part of the code, and every run produces the same codes
+   (finding K5 of C13; registered for this property as C19-K5-alpha-codes-repeat-across-runs). *)
 Theorem C19_uid_values_distinct :
   forall (parse_d parse_dt : key -> option Z) (mask : Z -> Z -> Z) (nbits : Z -> Z)
          (big : bool) (pid : list Z) p l vs,
